@@ -238,6 +238,8 @@ def configuration(mol, number_of=None):
         c = ce[a]
         if set(c) != {a, b}:
             continue  # cumulated chain: not transferable through RDKit
+        if len(mol._bonds[a]) > 3 or len(mol._bonds[b]) > 3:
+            continue  # hypervalent hub (S(VI)=N, P(V)=C …): RDKit has no double-bond stereo for atoms with more than 3 neighbours
         s = mol._bonds[a][b]._stereo
         if s is None:
             continue
@@ -259,7 +261,7 @@ def unsupported_labels(mol):
     for n, m, b in mol.bonds():
         if b._stereo is not None:
             c = ce.get(n)
-            if c is None or n not in c or m not in c:
+            if c is None or n not in c or m not in c or len(mol._bonds[n]) > 3 or len(mol._bonds[m]) > 3:
                 k += 1
     return k
 
@@ -364,7 +366,7 @@ def judge_A(mol, keep=True):
         else:
             # every attribute, bond and configuration agrees under the position map: a string difference can then only be a
             # numbering dependence of the canonical writer (C01's recorded gap), not a bridge defect
-            _state.setdefault('c01gap', []).append((s1, s2))
+            _state.setdefault('c01gap' if unsupported_labels(mol) == 0 else 'unsupported-dropped', []).append((s1, s2))
     return bad
 
 
@@ -386,6 +388,21 @@ def judge_B(rd):
         if p1 != p2:
             bad.append(('coordinates', 'first conformer x,y differ'))
     return bad
+
+
+def rdkit_accepts(mol):
+    """does RDKit itself accept this molecule (judged on chython's own SMILES of it; order-8 bonds written as dative)?"""
+    from rdkit import Chem
+    try:
+        smi = str(mol).split(' |')[0]      # RDKit reads `~` (no valence contribution); CX radical block dropped
+    except Exception:
+        return False
+    return Chem.MolFromSmiles(smi) is not None
+
+
+def chython_accepts(smi):
+    m = parse(smi)
+    return m is not None
 
 
 def readers_agree(mol, rd):
@@ -429,15 +446,21 @@ def judge_X(smi):
     if not readers_agree(mol, rd) or not rd_in_domain(rd) or unsupported_labels(mol):
         return None
     bad = []
-    a, b = rdcan(to_rdkit_molecule(mol)), rdcan(rd)
+    try:
+        a, b = rdcan(to_rdkit_molecule(mol)), rdcan(rd)
+    except Exception as e:
+        return [('raises', f'to_rdkit_molecule raised {type(e).__name__}: {str(e)[:120]}')]
     if a != b:
         bad.append(('to-vs-rdkit-reader', f'to(chython reading) {a} != RDKit reading {b}'))
     try:
-        s1, s2 = str(norm(from_rdkit_molecule(rd))), str(norm(mol))
+        back = from_rdkit_molecule(rd)
+    except Exception as e:
+        return bad + [('raises', f'from_rdkit_molecule raised {type(e).__name__}: {str(e)[:120]}')]
+    try:
+        s1, s2 = str(norm(back)), str(norm(mol))
     except Exception as e:
         return bad + [('normalise', type(e).__name__)]
     if s1 != s2:
-        back = from_rdkit_molecule(rd)
         if configuration(back) != configuration(mol) or \
                 [(x.atomic_number, x._charge, x._implicit_hydrogens) for x in back._atoms.values()] != \
                 [(x.atomic_number, x._charge, x._implicit_hydrogens) for x in mol._atoms.values()]:
@@ -462,6 +485,9 @@ STEREO = [
     'C[C@H](/C=C/Cl)N', 'CC(C)[C@@H](C(=O)N1CCC[C@H]1C(=O)O)N', 'C[C@@H]1CC[C@H](CC1)C(C)C', 'C[C@H]1CCCC[C@@H]1C',
     'C/C=C(/C)[C@@H](C)O', 'Cl/C=C/[C@@H]1CC[C@H](Br)CC1', 'C[N+](C)(C)C[C@@H](O)CC([O-])=O', 'N[C@@H](Cc1c[nH]cn1)C(O)=O',
     'C[C@@]1(O)CC[C@H](C(C)=C)CC1', 'CC[C@H](C)[C@H](N)C(O)=O', 'C(/F)(\\Cl)=C(/Br)\\I', 'C(=C/Cl)\\F',
+    # double bonds whose first atom is outside `_inorganic` (B) or whose hub atom precedes its terminal (hypervalent S, P)
+    'C/B=C/C', 'C/C=B/C', 'C/B=N/C', 'C/C(F)=B/C', 'CC/S(C)(=O)=N/C', 'C/S(CC)(=O)=C/C', 'C/N=S(/C)(=O)CC', 'C/P(C)(CC)=N/C',
+    'C/C=[N+](/C)[O-]', 'C/[N+]([O-])=C/C', 'C/S(CC)=C/C', 'C/C=S(/C)CC',
 ]
 OTHER = [
     'Cl[Pt](Cl)(N)N', 'N~[Cu]', '[NH3]~[Cu]~[NH3]', 'O~[Fe]', 'C[Mg]Br', '[Na+].[Cl-]', 'C[N+](=O)[O-]', '[13CH4]', '[2H]O[2H]',
@@ -662,9 +688,14 @@ def correspond(ctx):
             try:
                 rd, pre = real_to(m, keep)
             except Exception as e:
-                ctx.dist('domain:to-raises:' + type(e).__name__)
-                if pre_of(m, keep) is not None:
-                    s_to.add(line('to', int(keep), cmol_ints(m)), 'ok ' + ' '.join(map(str, pre_of(m, keep))), vtag, nt)
+                # hydrogens are known and chython accepted the molecule: a conversion that raises does not preserve it
+                ctx.dist('A:to-raises:' + type(e).__name__)
+                pre = pre_of(m, keep)
+                s_to.add(line('to', int(keep), cmol_ints(m)), 'err ' + type(e).__name__ if pre is None else
+                         'ok ' + ' '.join(map(str, pre)), vtag, nt)
+                if rdkit_accepts(m):
+                    report(ctx, 'A', vtag, smi, [('raises', f'to_rdkit_molecule raised {type(e).__name__}: {str(e)[:120]}')],
+                           {'variant': vtag.split(':', 1)[1] if ':' in vtag else '', 'seed': ctx.seed})
                 continue
             s_to.add(line('to', int(keep), cmol_ints(m)), 'ok ' + ' '.join(map(str, pre)), vtag, nt)
             ctx.dist('A:atoms<=%d' % (10 * (1 + len(m._atoms) // 10)))
@@ -672,12 +703,12 @@ def correspond(ctx):
             try:
                 bad = judge_A(m, keep)
             except Exception as e:
-                ctx.dist('domain:A-raises:' + type(e).__name__)
-                continue
+                ctx.dist('A:raises:' + type(e).__name__)
+                bad = [('raises', f'from_rdkit_molecule(to_rdkit_molecule(m)) raised {type(e).__name__}: {str(e)[:120]}')]
             ctx.count(('A', vtag, smi), nt)
             report(ctx, 'A', vtag, smi, bad, {'variant': vtag.split(':', 1)[1] if ':' in vtag else '', 'seed': ctx.seed})
             # model round trip (RDKit as the identity) must return the same molecule, renumbered by position
-            if len(m._atoms) <= 40:
+            if len(m._atoms) <= 40 and unsupported_labels(m) == 0:
                 s_rt.add(line('rt', int(keep), cmol_ints(m)), 'ok ' + ' '.join(map(str, expected_rt(m, keep))), vtag, nt)
         # ---- RDKit side ----
         p = Chem.SmilesParserParams()
@@ -696,15 +727,19 @@ def correspond(ctx):
                 try:
                     back, pre, envr = real_from(rd)
                 except Exception as e:
-                    ctx.dist('domain:from-raises:' + type(e).__name__)
+                    ctx.dist('B:from-raises:' + type(e).__name__)
+                    s_from.add(line('from', rmol_ints(rd), nbrs_ints(rd)), 'err ' + type(e).__name__, f'{tag}:rd:{vt}')
+                    if chython_accepts(smi):
+                        report(ctx, 'B', f'{tag}:rd:{vt}', smi, [('raises', f'from_rdkit_molecule raised {type(e).__name__}: {str(e)[:120]}')],
+                               {'rd_variant': vt, 'seed': ctx.seed})
                     continue
                 nt = nontrivial(back)
                 s_from.add(line('from', rmol_ints(rd), nbrs_ints(rd)), 'ok ' + ' '.join(map(str, pre)), f'{tag}:rd:{vt}', nt)
                 try:
                     bad = judge_B(rd)
                 except Exception as e:
-                    ctx.dist('domain:B-raises:' + type(e).__name__)
-                    continue
+                    ctx.dist('B:raises:' + type(e).__name__)
+                    bad = [('raises', f'to_rdkit_molecule(from_rdkit_molecule(r)) raised {type(e).__name__}: {str(e)[:120]}')]
                 ctx.count(('B', tag, vt, smi), nt)
                 report(ctx, 'B', f'{tag}:rd:{vt}', smi, bad, {'rd_variant': vt, 'seed': ctx.seed})
             x = judge_X(smi)
@@ -717,6 +752,9 @@ def correspond(ctx):
     edge_from(ctx, s_edge)
     for s in (s_env, s_to, s_from, s_rt, s_edge):
         s.run()
+    if _state.get('unsupported-dropped'):
+        ctx.notes.append(f"{len(_state['unsupported-dropped'])} molecules lost only labels RDKit cannot carry (allene, cumulated or "
+                         f"hypervalent double bond): outside the domain, e.g. {_state['unsupported-dropped'][0]}")
     if _state.get('c01gap'):
         ctx.notes.append(f"{len(_state['c01gap'])} canonical-string differences with identical attributes/bonds/configuration under "
                          f"the position map (numbering dependence of the writer, C01 gap; not counted): e.g. {_state['c01gap'][0]}")
